@@ -9,9 +9,11 @@ OPS = ["+", "-", "*", "//", "%", "**", ">>", "<<", "&", "^", "|", "/"]
 def _write_module(path, stmts):
   """stmts: list of source lines using `a`, `b` (instances), `t` (a local), `v` (an int)"""
   lines = ["from miros.thread_safe_attributes import MetaThreadSafeAttributes", "",
-           "class Obj(metaclass=MetaThreadSafeAttributes):", "  _attributes = ['x', 'y']", "",
+           "class Obj(metaclass=MetaThreadSafeAttributes):", "  _attributes = ['x', 'y', 'l']", "",
            "class Other(metaclass=MetaThreadSafeAttributes):", "  _attributes = ['x']", "",
            "class Holder(metaclass=MetaThreadSafeAttributes):", "  _attributes = ['o']", "",
+           "class Settings:", "  # a plain base class that happens to define a constant of the same name", "  x = 3", "",
+           "class Ctl(Settings, metaclass=MetaThreadSafeAttributes):", "  _attributes = ['x']", "",
            "class Eq(metaclass=MetaThreadSafeAttributes):", "  # objects that compare (and hash) equal are still different objects",
            "  _attributes = ['x']", "  def __init__(self, key=1):", "    self.key = key",
            "  def __eq__(self, other):", "    return isinstance(other, Eq) and other.key == self.key",
@@ -156,6 +158,10 @@ def c28_statements():
   out += [("aug", "a.x += a.y"), ("aug", "a.x += b.x"), ("aug-self", "a.x += a.x")]
   # the right-hand side calls a helper that itself makes an augmented assignment to the attribute (of another object, of the same object)
   out += [("aug-nested", "a.x += bump(b)"), ("aug-nested", "a.x += bump(a)"), ("read-nested", "t = a.x + bump(b)"), ("set-nested", "a.x = bump(b)")]
+  # the attribute holds a container: statements that read it and then update an ITEM of the container in place (no assignment to
+  # the attribute itself follows)
+  out += [("item-aug", "a.l[0] += v"), ("item-aug", "a.l[1] -= v"), ("item-read", "t = a.l[0] + v"), ("item-set", "a.l[v % 3] = t"),
+          ("item-aug", "a.l[a.x % 3] += 1")]
   out += [("lock", "_, _lock = a.x")]
   return out
 
@@ -169,16 +175,17 @@ def c28_run(seed, n):
   for _ in range(n):
     a, b = mod.Obj(), mod.Obj()
     a.x, a.y, b.x = rng.randint(0, 5), rng.randint(0, 5), rng.randint(1, 5)
+    a.l = [1, 2, 3]
     seq = []
     for _ in range(rng.randint(1, 5)):
       k = rng.randrange(len(forms))
       v, t = rng.randint(0, 4), rng.randint(1, 9)
       kind, src = forms[k]
-      sh = {"ax": a.x, "ay": a.y, "bx": b.x}
+      sh = {"ax": a.x, "ay": a.y, "bx": b.x, "al": list(a.l)}
       class P:           # plain object with the same values: what ordinary Python attributes would do
         pass
       pa, pb = P(), P()
-      pa.x, pa.y, pb.x = sh["ax"], sh["ay"], sh["bx"]
+      pa.x, pa.y, pb.x, pa.l = sh["ax"], sh["ay"], sh["bx"], sh["al"]
       rec = [kind, src, v, t, "ok", 0, 0, "", 0, 0]
       try:
         def plain_bump(o):
@@ -190,18 +197,18 @@ def c28_run(seed, n):
         else:
           exec(src, {}, env)
           exp_t = env["t"]
-        exp = (pa.x, pa.y, pb.x, exp_t)
+        exp = (pa.x, pa.y, pb.x, exp_t, list(pa.l))
       except Exception as ex:  # noqa
         continue          # the statement fails with plain attributes too: outside the domain ("after the statement finishes")
       try:
         rt, lk = getattr(mod, "stmt_%d" % k)(a, b, t, v)
         if kind == "lock" and lk is not None:
           pass
-        got = (a.x, a.y, b.x, rt)
+        got = (a.x, a.y, b.x, rt, list(a.l))
       except Exception as ex:  # noqa
         got = ("raise", type(ex).__name__)
         rec[4] = "raised:" + type(ex).__name__
-      cnts = [lock_state(lock_of(mod, "Obj", "x"))[0], lock_state(lock_of(mod, "Obj", "y"))[0]]
+      cnts = [lock_state(lock_of(mod, "Obj", "x"))[0], lock_state(lock_of(mod, "Obj", "y"))[0] + lock_state(lock_of(mod, "Obj", "l"))[0]]
       rec[5], rec[6] = cnts[0], cnts[1]
       rec[7] = "same" if [float(z) if isinstance(z, (int, float, bool)) else z for z in got] == [float(z) if isinstance(z, (int, float, bool)) else z for z in exp] else "differs:%s!=%s" % (got, exp)
       seq.append(rec)
@@ -247,8 +254,8 @@ def c29_run(seed, n):
       if k == "aug" and len(insts) >= 1:
         # `a.attr += b.attr2` on one line, a and b any two objects (possibly the same one, possibly of different classes)
         na, nb = rng.choice(sorted(insts)), rng.choice(sorted(insts))
-        aa = "x" if type(insts[na]).__name__ in ("Other", "Eq") else rng.choice(["x", "y"])
-        ab = "x" if type(insts[nb]).__name__ in ("Other", "Eq") else rng.choice(["x", "y"])
+        aa = "x" if type(insts[na]).__name__ in ("Other", "Eq", "Ctl") else rng.choice(["x", "y"])
+        ab = "x" if type(insts[nb]).__name__ in ("Other", "Eq", "Ctl") else rng.choice(["x", "y"])
         try:
           getattr(mod, "stmt_%d" % AUG[(aa, ab)])(insts[na], insts[nb], 0, 0)
           ops.append(["aug", na, type(insts[na]).__name__, aa, getattr(insts[na], aa), "ok", nb, ab])
@@ -258,14 +265,14 @@ def c29_run(seed, n):
       if k == "aug":
         k = "new"
       if k == "new" or not insts:
-        cls = rng.choice(["Obj", "Other", "Eq"])
+        cls = rng.choice(["Obj", "Other", "Eq", "Ctl"])
         nm = "%s%d" % (cls[0].lower(), len(insts) + 1)
         insts[nm] = getattr(mod, cls)()
         ops.append(["new", nm, cls, "", 0, "ok"])
         continue
       nm = rng.choice(sorted(insts))
       attr = "x" if nm.startswith("o") and nm[1:].isdigit() and type(insts[nm]).__name__ == "Other" else rng.choice(["x", "y"])
-      if type(insts[nm]).__name__ in ("Other", "Eq"):
+      if type(insts[nm]).__name__ in ("Other", "Eq", "Ctl"):
         attr = "x"
       try:
         if k == "set":
